@@ -71,4 +71,9 @@ def claims(TRUST):
 
 
 na_reasons = {
+    "C09": "every sentence of the property is about file-system histories across a restart (which files exist before and after loadExistingFiles / the layout migrations, their access times and order of eviction); "
+           "the contract engine has no model of directory contents, and contracts over os.Rename/Remove/ReadDir would be an assumed file-system model rather than facts about the code; the only per-function piece "
+           "(file-name regexp in load.go against FileLocation) needs regular-expression reasoning that the SMT encoding does not have. See DESIGN.md 10.6.",
+    "C16": "the guarantees are about gRPC message sequences handled by a receive loop that talks to a writer goroutine through an io.Pipe and two channels (first message, resource name changing mid-stream, early return when the blob exists, "
+           "committed_size); channel contents and goroutine interleavings are outside what the contract engine models (no contract within reach can state them), and the small parsing helpers alone decide no sentence of the property. See DESIGN.md 10.6.",
 }
